@@ -24,7 +24,7 @@ pub fn prop() -> Prop {
             "auxiliary-cell faults are classified by the rule 'step <= n - k or asserted => unsatisfying' (the cell is the next-state of an enforced transition or asserted), because the protocol's random elements are not known to the harness at fault time",
             "main-cell faults are classified on the main segment only: the auxiliary segment is rebuilt consistently from the corrupted main trace by the prover",
         ],
-        subs: vec![Sub::gen("faults", faults, 500, 20_000, 300_000), Sub::gen("examples_wrong_inputs", examples_wrong_inputs, 200, 400, 10_000)],
+        subs: vec![Sub::gen("faults", faults, 500, 20_000, 300_000), Sub::gen("examples_wrong_inputs", examples_wrong_inputs, 200, 400, 4_000)],
         required: vec!["fault:cell_first", "fault:cell_interior", "fault:cell_last_enforced", "fault:cell_first_exempt_row", "fault:cell_exempt", "fault:asserted_cell", "fault:aux_cell", "fault:row", "fault:column", "fault:pub_asserted_value", "fault:pub_tag", "fault:air_coefficient", "outcome:rejected", "outcome:verified_still_valid", "example_wrong_inputs_rejected", "ext:1", "ext:2", "ext:3", "field:f62", "field:f64", "field:f128"],
         required_thorough: vec![],
     }
